@@ -58,8 +58,39 @@ def _viol(res, field, path, seed_name, ledger_name, what):
                   {'mode': 'node', 'seed': seed_name, 'ledger': ledger_name, 'path': list(path)})
 
 
+class _Raised:
+    """What a lbry call raised instead of returning; unequal to every expected value."""
+
+    def __init__(self, e):
+        self.e = e
+
+    def __repr__(self):
+        return f'<raised {type(self.e).__name__}: {self.e}>'
+
+    def hex(self):
+        return repr(self)
+
+
+def _try(fn):
+    try:
+        return fn()
+    except Exception as e:   # noqa - judged by the caller: an exception is never the value BIP32 prescribes
+        return _Raised(e)
+
+
+def _show(v):
+    if isinstance(v, (bytes, bytearray, _Raised)):
+        return v.hex()
+    if isinstance(v, tuple):
+        parts = [_show(x) for x in v]
+        return parts[0] if len(set(parts)) == 1 else '(' + ', '.join(parts) + ')'
+    return repr(v)
+
+
 def check_node(res, lk, rn, ledger, seed_name, ledger_name, path):
-    """lk: lbry PrivateKey reached by private derivation; rn: reference node for the same path."""
+    """lk: lbry PrivateKey reached by private derivation; rn: reference node for the same path.  Every lbry call
+    goes through _try(): an exception (e.g. ValueError out of extended_key_string()) is a wrong answer, not a
+    harness failure."""
     from lbry.wallet.bip32 import from_extended_key_string, PrivateKey, PublicKey
     from lbry.crypto.base58 import Base58
     from refs import bip32
@@ -69,59 +100,60 @@ def check_node(res, lk, rn, ledger, seed_name, ledger_name, path):
     def bad(field, what):
         _viol(res, field, path, seed_name, ledger_name, what)
 
-    pub = lk.public_key
-    if lk.private_key_bytes != rn.privkey:
-        bad('private-key', f'private key {lk.private_key_bytes.hex()} != {rn.privkey.hex()}')
-    if pub.pubkey_bytes != rn.pubkey:
-        bad('public-key', f'public key {pub.pubkey_bytes.hex()} != {rn.pubkey.hex()}')
-    if lk.chain_code != rn.chain_code or pub.chain_code != rn.chain_code:
-        bad('chain-code', 'chain code differs')
-    if lk.identifier() != rn.identifier or pub.identifier() != rn.identifier:
-        bad('identifier', 'key identifier (hash160 of the public key) differs')
-    if lk.fingerprint() != rn.fingerprint or pub.fingerprint() != rn.fingerprint:
-        bad('fingerprint', 'fingerprint differs')
-    if lk.parent_fingerprint() != rn.parent_fp or pub.parent_fingerprint() != rn.parent_fp:
-        bad('parent-fingerprint', 'parent fingerprint differs')
-    if (lk.depth, lk.n) != (rn.depth, rn.n) or (pub.depth, pub.n) != (rn.depth, rn.n):
-        bad('depth-or-index', f'(depth, n) = {(lk.depth, lk.n)} / {(pub.depth, pub.n)} != {(rn.depth, rn.n)}')
+    def same(field, label, got, want):
+        if isinstance(got, _Raised):
+            bad(field + '-raised', f'{label} raised {type(got.e).__name__}: {got.e}')
+            return False
+        if got != want:
+            bad(field, f'{label} {_show(got)} != {_show(want)}')
+            return False
+        return True
+
+    pub = _try(lambda: lk.public_key)
+    if isinstance(pub, _Raised):
+        bad('public-key-raised', f'PrivateKey.public_key raised {type(pub.e).__name__}: {pub.e}')
+        return
+    same('private-key', 'private key', _try(lambda: lk.private_key_bytes), rn.privkey)
+    same('public-key', 'public key', _try(lambda: pub.pubkey_bytes), rn.pubkey)
+    same('chain-code', 'chain code', _try(lambda: (lk.chain_code, pub.chain_code)), (rn.chain_code, rn.chain_code))
+    same('identifier', 'key identifier', _try(lambda: (lk.identifier(), pub.identifier())), (rn.identifier,) * 2)
+    same('fingerprint', 'fingerprint', _try(lambda: (lk.fingerprint(), pub.fingerprint())), (rn.fingerprint,) * 2)
+    same('parent-fingerprint', 'parent fingerprint',
+         _try(lambda: (lk.parent_fingerprint(), pub.parent_fingerprint())), (rn.parent_fp,) * 2)
+    same('depth-or-index', '(depth, n)', _try(lambda: (lk.depth, lk.n, pub.depth, pub.n)), (rn.depth, rn.n) * 2)
     xprv_ref = rn.xprv(ledger.extended_private_key_prefix)
     xpub_ref = rn.xpub(ledger.extended_public_key_prefix)
-    xprv, xpub = lk.extended_key_string(), pub.extended_key_string()
-    if xprv != xprv_ref:
-        bad('xprv-string', f'extended private key {xprv} != {xprv_ref}')
-    if xpub != xpub_ref:
-        bad('xpub-string', f'extended public key {xpub} != {xpub_ref}')
+    same('xprv-string', 'extended private key', _try(lk.extended_key_string), xprv_ref)
+    same('xpub-string', 'extended public key', _try(pub.extended_key_string), xpub_ref)
     # address
     prefix = ledger.pubkey_address_prefix
     addr_ref = bip32.address(rn.pubkey, prefix)
-    if pub.address != addr_ref or lk.address != addr_ref or ledger.public_key_to_address(pub.pubkey_bytes) != addr_ref:
-        bad('address', f'address {pub.address} != {addr_ref}')
-    else:
-        try:
-            ok = (Base58.decode_check(addr_ref) == prefix + rn.identifier
-                  and ledger.address_to_hash160(addr_ref) == rn.identifier and ledger.is_pubkey_address(addr_ref)
-                  and not ledger.is_script_address(addr_ref))
-        except Exception as e:   # noqa
-            ok = False
-            res.tally(f'address_decode_raised_{type(e).__name__}')
-        if not ok:
-            bad('address-roundtrip', f'address {addr_ref} does not decode back to prefix || hash160')
+    if same('address', 'address', _try(lambda: (pub.address, lk.address, ledger.public_key_to_address(pub.pubkey_bytes))),
+            (addr_ref,) * 3):
+        ok = _try(lambda: (Base58.decode_check(addr_ref) == prefix + rn.identifier
+                           and ledger.address_to_hash160(addr_ref) == rn.identifier
+                           and ledger.is_pubkey_address(addr_ref) and not ledger.is_script_address(addr_ref)))
+        if ok is not True:
+            bad('address-roundtrip', f'address {addr_ref} does not decode back to prefix || hash160 ({ok!r})')
     # extended key strings survive decode / encode
     for s, want_type in ((xprv_ref, PrivateKey), (xpub_ref, PublicKey)):
-        try:
-            k2 = from_extended_key_string(ledger, s)
-        except Exception as e:   # noqa
-            bad('string-decode', f'from_extended_key_string raised {type(e).__name__} on a valid string')
+        k2 = _try(lambda: from_extended_key_string(ledger, s))
+        if isinstance(k2, _Raised):
+            bad('string-decode', f'from_extended_key_string raised {type(k2.e).__name__} on a valid string')
             continue
-        material = k2.private_key_bytes if isinstance(k2, PrivateKey) else k2.pubkey_bytes
-        want = rn.privkey if want_type is PrivateKey else rn.pubkey
-        if type(k2) is not want_type or material != want or k2.chain_code != rn.chain_code \
-                or (k2.depth, k2.n) != (rn.depth, rn.n):
-            bad('string-roundtrip', 'decoded extended key differs in key material / chain code / depth / n')
+        got = _try(lambda: (type(k2), k2.private_key_bytes if isinstance(k2, PrivateKey) else k2.pubkey_bytes,
+                            k2.chain_code, k2.depth, k2.n))
+        want = (want_type, rn.privkey if want_type is PrivateKey else rn.pubkey, rn.chain_code, rn.depth, rn.n)
+        if isinstance(got, _Raised) or got != want:
+            bad('string-roundtrip', f'decoded extended key differs in key material / chain code / depth / n ({got!r:.120})')
+            continue
+        again = _try(k2.extended_key_string)
+        if isinstance(again, _Raised):
+            bad('string-reencode-raised', f're-encoding a decoded extended key raised {type(again.e).__name__}: {again.e}')
         elif rn.depth == 0:
-            if k2.extended_key_string() != s:
+            if again != s:
                 bad('string-identity', 're-encoding a parent-less extended key changes the string')
-        elif k2.extended_key_string() != s:
+        elif again != s:
             res.tally('interpretation_only:reencoded_child_key_string_loses_parent_fingerprint')
     # non-vacuity
     if rn.secret < (1 << 248):
@@ -165,15 +197,19 @@ def walk(res, lk, lpub, rn, ledger, seed_name, ledger_name, path, depth_left):
                 _viol(res, 'public-child-raised', p, seed_name, ledger_name,
                       f'PublicKey.child raised {type(e).__name__}: {e}')
             if cpub is not None:
-                want = lc.public_key
-                if cpub.pubkey_bytes != want.pubkey_bytes or cpub.pubkey_bytes != rc.pubkey:
+                got = _try(lambda: (cpub.pubkey_bytes, lc.public_key.pubkey_bytes, cpub.chain_code, cpub.depth, cpub.n,
+                                    cpub.extended_key_string(), cpub.address, lc.public_key.address))
+                if isinstance(got, _Raised):
+                    _viol(res, 'public-derivation-raised', p, seed_name, ledger_name,
+                          f'reading the publicly derived key raised {type(got.e).__name__}: {got.e}')
+                    cpub = None
+                elif got[0] != got[1] or got[0] != rc.pubkey:
                     _viol(res, 'public-derivation-key', p, seed_name, ledger_name,
                           'public derivation gives a different public key than private derivation')
-                elif cpub.chain_code != rc.chain_code or (cpub.depth, cpub.n) != (rc.depth, rc.n):
+                elif got[2] != rc.chain_code or (got[3], got[4]) != (rc.depth, rc.n):
                     _viol(res, 'public-derivation-meta', p, seed_name, ledger_name,
                           'public derivation gives a different chain code / depth / n')
-                elif cpub.extended_key_string() != rc.xpub(ledger.extended_public_key_prefix) \
-                        or cpub.address != want.address:
+                elif got[5] != rc.xpub(ledger.extended_public_key_prefix) or got[6] != got[7]:
                     _viol(res, 'public-derivation-string', p, seed_name, ledger_name,
                           'publicly derived key serialises differently')
                 if len(p) <= 2:      # independent cross-check of the reference's own CKDpub
@@ -182,16 +218,18 @@ def walk(res, lk, lpub, rn, ledger, seed_name, ledger_name, path, depth_left):
         else:
             res.count('evaluations')
             try:
-                got = lpub.child(i)
+                lpub.child(i)
                 _viol(res, 'hardened-public-derivation', p, seed_name, ledger_name,
-                      f'PublicKey.child({i}) returned {got.pubkey_bytes.hex()} for a hardened index')
+                      f'PublicKey.child({i}) returned a key for a hardened index')
             except ValueError:
                 res.count('hardened_public_derivations_refused')
             except Exception as e:   # noqa
                 res.tally(f'hardened_public_derivation_raises_{type(e).__name__}')
         if depth_left > 1:
-            walk(res, lc, cpub if cpub is not None else lc.public_key, rc, ledger, seed_name, ledger_name, p,
-                 depth_left - 1)
+            nxt_pub = cpub if cpub is not None else _try(lambda: lc.public_key)
+            if isinstance(nxt_pub, _Raised):      # already reported by check_node for this node
+                continue
+            walk(res, lc, nxt_pub, rc, ledger, seed_name, ledger_name, p, depth_left - 1)
 
 
 def _start(seed_name, ledger_name, path):
@@ -600,6 +638,30 @@ def ref_chain(phrase_id, chain, n):
     return memo[n]
 
 
+_REF_KEY = {}
+
+
+def ref_key(phrase_id, gen, chain, n):
+    """Reference key the account must hand out for its address (chain, n): m/chain/n for a hierarchical account,
+    the master key itself for a single-address account.  -> dict(priv, pub, cc, depth, n, address)"""
+    from refs import bip32
+    k = (phrase_id, gen, chain, n)
+    if k not in _REF_KEY:
+        m = _REF_KEY.get(('master', phrase_id))
+        if m is None:
+            m = _REF_KEY[('master', phrase_id)] = bip32.master(ref_seed(PHRASES[phrase_id]))
+        if gen == 'hd':
+            ck = ('chain', phrase_id, chain)
+            if ck not in _REF_KEY:
+                _REF_KEY[ck] = m.ckd_priv(chain)
+            node = _REF_KEY[ck].ckd_priv(n)
+        else:
+            node = m
+        _REF_KEY[k] = {'priv': node.privkey, 'pub': node.pubkey, 'cc': node.chain_code, 'depth': node.depth,
+                       'n': node.n, 'address': bip32.address(node.pubkey, b'\x55')}
+    return _REF_KEY[k]
+
+
 def chain_state(h):
     return tuple(tuple((r['n'], r['used'] > 0) for r in h.rows(c)) for c in (0, 1))
 
@@ -622,6 +684,20 @@ def judge_chains(h, phrase_id, res, history, cfg):
     if out:
         res.violation({'kind': 'address-chain', 'why': out[0], 'gaps': list(cfg['gaps'])},
                       f"{out[1]} after {history}", {'mode': 'chain', 'cfg': cfg, 'history': [list(o) for o in history]})
+        return out
+    # the account must hand out the BIP32 key of every address it generated: both chains, order alternating with
+    # the history length, through the account and through the ledger
+    env = KeyEnv.of_chain_harness(h, phrase_id)
+    order = (0, 1) if len(history) % 2 == 0 else (1, 0)
+    seq = []
+    for api in ('A', 'L'):
+        for c in order:
+            for n in range(len(env.addresses[0][c])):
+                seq += [('q', 0, c, n, api), ('p', 0, c, n, api)]
+    bad = run_key_sequence(env, seq, res, {'mode': 'chain', 'cfg': cfg, 'history': [list(o) for o in history]},
+                           context=f'chain state after {history}')
+    if bad:
+        out = ('key-lookup', bad)
     return out
 
 
@@ -743,8 +819,12 @@ def work_account(item, res):
     h = ChainH(phrase_id, (3, 2))
     try:
         res.count('evaluations')
-        d = h.account.to_dict()
-        if d['private_key'] != m.xprv() or d['public_key'] != m.xpub():
+        d = _try(h.account.to_dict)
+        if isinstance(d, _Raised):
+            res.violation({'kind': 'account-keys', 'why': 'to_dict-raised'},
+                          f'account of {phrase_id}: serialising the account keys raised {type(d.e).__name__}: {d.e}',
+                          {'mode': 'account', 'phrase': phrase_id})
+        elif d['private_key'] != m.xprv() or d['public_key'] != m.xpub():
             res.violation({'kind': 'account-keys', 'why': 'stored-strings-differ-from-reference'},
                           f"account of {phrase_id}: stored extended keys differ from BIP32 master keys of the seed",
                           {'mode': 'account', 'phrase': phrase_id})
@@ -778,12 +858,362 @@ def work_account(item, res):
 
 
 # ---------------------------------------------------------------------------------------------------------
+# account-level key lookup: for every generated address, in any query order
+# ---------------------------------------------------------------------------------------------------------
+
+KEY_WALLETS = {
+    # two hierarchical accounts in one wallet (restored from xprv strings: cheap to rebuild for every sequence)
+    'K1': [{'phrase': 'P0', 'gen': 'hd', 'gaps': (3, 2), 'how': 'xprv'},
+           {'phrase': 'P1', 'gen': 'hd', 'gaps': (2, 2), 'how': 'xprv'}],
+    # seed-restored hierarchical account + single-address account
+    'K2': [{'phrase': 'P1', 'gen': 'hd', 'gaps': (2, 3), 'how': 'seed'},
+           {'phrase': 'P0', 'gen': 'single', 'how': 'seed'}],
+    # default gaps (20 receiving / 6 change), seed and xprv
+    'K3': [{'phrase': 'P0', 'gen': 'hd', 'gaps': (20, 6), 'how': 'seed'},
+           {'phrase': 'P1', 'gen': 'hd', 'gaps': (20, 6), 'how': 'xprv'}],
+}
+PASSWORD = 'correct horse'
+
+
+class KeyEnv:
+    """What run_key_sequence needs: accounts, their generated addresses [account][chain] -> [address...] (read from
+    the database), specs, encrypted flags."""
+
+    def __init__(self, loop, ledger, wallet, accounts, specs, addresses):
+        self.loop, self.ledger, self.wallet = loop, ledger, wallet
+        self.accounts, self.specs, self.addresses = accounts, specs, addresses
+        self.encrypted = [False] * len(accounts)
+
+    @classmethod
+    def of_chain_harness(cls, h, phrase_id):
+        rows = [[r['address'] for r in h.rows(c)] for c in (0, 1)]
+        return cls(h.loop, h.ledger, h.wallet, [h.account], [{'phrase': phrase_id, 'gen': 'hd'}], [rows])
+
+
+class KeyH:
+    """Real Ledger + Database + Wallet with several Accounts whose addresses were generated once by
+    ensure_address_gap(); reset() rebuilds the Account objects (and with them every per-account cache) on the
+    same database, as a wallet restart does."""
+
+    def __init__(self, wallet_id):
+        from vf.vloop import VLoop
+        from lbry.wallet import Ledger, Database, Headers, Wallet
+        from refs import bip32
+        self.loop = VLoop().activate()
+        self.closed = False
+        self.specs = KEY_WALLETS[wallet_id]
+        try:
+            self.ledger = Ledger({'db': Database(':memory:'), 'headers': Headers(':memory:'), 'network': _FakeNetwork()})
+            self.loop.run(self.ledger.db.open())
+            self.wallet = Wallet()
+            self.dicts = []
+            for k, sp in enumerate(self.specs):
+                if sp['gen'] == 'hd':
+                    gen = {'name': 'deterministic-chain',
+                           'receiving': {'gap': sp['gaps'][0], 'maximum_uses_per_address': 1},
+                           'change': {'gap': sp['gaps'][1], 'maximum_uses_per_address': 1}}
+                else:
+                    gen = {'name': 'single-address'}
+                d = {'name': f'k{k}', 'address_generator': gen}
+                if sp['how'] == 'seed':
+                    d['seed'] = PHRASES[sp['phrase']]
+                else:
+                    d['private_key'] = bip32.master(ref_seed(PHRASES[sp['phrase']])).xprv()
+                self.dicts.append(d)
+            self.reset()
+            self.addresses = []
+            for acc, sp in zip(self.accounts, self.specs):
+                self.loop.run(acc.ensure_address_gap())
+                chains = (0, 1) if sp['gen'] == 'hd' else (0,)
+                per = []
+                for c in chains:
+                    recs = self.loop.run(acc.address_managers[c].get_address_records(order_by='n asc'))
+                    per.append([r['address'] for r in recs])
+                if len(per) == 1:
+                    per.append([])
+                self.addresses.append(per)
+        except BaseException:
+            self.close()
+            raise
+
+    def reset(self):
+        from lbry.wallet import Account
+        self.ledger.accounts.clear()
+        self.wallet.accounts.clear()
+        self.accounts = [Account.from_dict(self.ledger, self.wallet, dict(d)) for d in self.dicts]
+
+    def env(self):
+        return KeyEnv(self.loop, self.ledger, self.wallet, self.accounts, self.specs, self.addresses)
+
+    def close(self):
+        if self.closed:
+            return
+        self.closed = True
+        try:
+            self.loop.run(self.ledger.db.close())
+        except Exception:   # noqa
+            pass
+        finally:
+            self.loop.shutdown()
+
+
+def _key_call(env, op):
+    """One lookup on the real objects.  op = (kind, account, chain, n, api); kind q = private key, p = public key;
+    api A = Account.get_*_key(chain, n), M = AddressManager.get_*_key(n), L = Ledger.get_*_key_for_address()."""
+    kind, a, c, n, api = op
+    acc = env.accounts[a]
+    if api == 'A':
+        return acc.get_private_key(c, n) if kind == 'q' else acc.get_public_key(c, n)
+    if api == 'M':
+        am = acc.address_managers[c]
+        return am.get_private_key(n) if kind == 'q' else am.get_public_key(n)
+    address = env.addresses[a][c][n]
+    if kind == 'q':
+        return env.loop.run(env.ledger.get_private_key_for_address(env.wallet, address))
+    return env.loop.run(env.ledger.get_public_key_for_address(env.wallet, address))
+
+
+def _history_tags(seq, i):
+    """How the lookups before position i relate to lookup i (names the history shape in the signature)."""
+    _, a, c, _, _ = seq[i]
+    tags = set()
+    for op in seq[:i]:
+        if op[0] in ('x', 'd'):
+            tags.add('lock-unlock' if op[1] == a else 'other-account-locked')
+        elif op[1] != a:
+            tags.add('other-account')
+        elif op[2] != c:
+            tags.add('other-chain')
+        else:
+            tags.add('same-chain')
+    return sorted(tags) or ['first-lookup']
+
+
+def run_key_sequence(env, seq, res, replay, context='', start=0):
+    """Executes the lookups / lock / unlock operations in order and judges every answer.  Returns a description of
+    the first deviation (also recorded as a violation) or None.  Operations before `start` already ran on these
+    objects (they are history only)."""
+    first_bad = None
+    for i in range(start, len(seq)):
+        op = seq[i]
+        if op[0] == 'x':
+            env.accounts[op[1]].encrypt(PASSWORD)
+            env.encrypted[op[1]] = True
+            continue
+        if op[0] == 'd':
+            ok = env.accounts[op[1]].decrypt(PASSWORD)
+            env.encrypted[op[1]] = False
+            if ok is not True:
+                res.tally('decrypt_with_right_password_refused(C13_territory)')
+            continue
+        kind, a, c, n, api = op
+        sp = env.specs[a]
+        want = ref_key(sp['phrase'], sp['gen'], c, n)
+        address = env.addresses[a][c][n]
+        res.count('evaluations')
+        res.count('key_lookups')
+        got = _try(lambda: _key_call(env, op))
+        field = None
+        if isinstance(got, _Raised):
+            if kind == 'q' and env.encrypted[a]:
+                res.tally('private_key_lookup_on_locked_account_refused')
+                continue
+            field, what = 'raised', f'raised {type(got.e).__name__}: {got.e}'
+        elif got is None:
+            if kind == 'q' and env.encrypted[a]:
+                res.tally('private_key_lookup_on_locked_account_answers_None')
+                continue
+            field, what = 'none', 'returned None for an address the account generated'
+        else:
+            if kind == 'q':
+                view = _try(lambda: (got.private_key_bytes, got.public_key.pubkey_bytes, got.public_key.address,
+                                     got.chain_code, got.depth, got.n))
+                exp = (want['priv'], want['pub'], want['address'], want['cc'], want['depth'], want['n'])
+                names = ('private-key', 'public-key', 'address', 'chain-code', 'depth', 'n')
+            else:
+                view = _try(lambda: (got.pubkey_bytes, got.address, got.chain_code, got.depth, got.n))
+                exp = (want['pub'], want['address'], want['cc'], want['depth'], want['n'])
+                names = ('public-key', 'address', 'chain-code', 'depth', 'n')
+            if isinstance(view, _Raised):
+                field, what = 'raised', f'reading the returned key raised {type(view.e).__name__}: {view.e}'
+            else:
+                for nm, g, e in zip(names, view, exp):
+                    if g != e:
+                        field, what = nm, f'{nm} {_show(g)} is not that of the BIP32 key ({_show(e)})'
+                        break
+                if field is None and want['address'] != address:
+                    field, what = 'stored-address', f'stored address {address} is not the BIP32 address {want["address"]}'
+        if field is None:
+            continue
+        path = f"m/{c}/{n}" if sp['gen'] == 'hd' else 'm'
+        tags = _history_tags(seq, i)
+        msg = (f"{'private' if kind == 'q' else 'public'} key lookup {i} via {api} for account {a} {path} "
+               f"({address}) {what}; history {tags}{' - ' + context if context else ''}")
+        res.violation({'kind': 'account-key-lookup', 'what': 'private' if kind == 'q' else 'public', 'api': api,
+                       'field': field, 'generator': sp['gen'], 'history': tags},
+                      msg, dict(replay, seq=[list(o) for o in seq], failing=i))
+        if first_bad is None:
+            first_bad = msg
+    return first_bad
+
+
+def key_ops(env_specs, addresses, alphabet):
+    """Lookup alphabet.  'R' (reduced): index 0 only, private via A and L, public via A.  'F' (full): first and
+    last generated index, both kinds via A, M and L."""
+    ops = []
+    for a, sp in enumerate(env_specs):
+        chains = (0, 1) if sp['gen'] == 'hd' else (0,)
+        for c in chains:
+            last = len(addresses[a][c]) - 1
+            idx = [0] if alphabet == 'R' else sorted({0, last})
+            for n in idx:
+                if alphabet == 'R':
+                    ops += [('q', a, c, n, 'A'), ('q', a, c, n, 'L'), ('p', a, c, n, 'A')]
+                else:
+                    ops += [(k, a, c, n, api) for k in 'qp' for api in 'AML']
+    return ops
+
+
+def key_sequences(ops, n_accounts, depth, first):
+    """Every sequence of exactly `depth` operations that starts with `first`, over the lookups in ops plus the
+    legal lock ('x', a) / unlock ('d', a) operation of every account."""
+    def rec(prefix, enc):
+        if len(prefix) == depth:
+            yield prefix
+            return
+        for op in list(ops) + [('d', a) if enc[a] else ('x', a) for a in range(n_accounts)]:
+            e2 = enc
+            if op[0] in ('x', 'd'):
+                e2 = list(enc)
+                e2[op[1]] = op[0] == 'x'
+            yield from rec(prefix + [op], e2)
+    enc = [False] * n_accounts
+    if first[0] == 'x':
+        enc[first[1]] = True
+    yield from rec([first], enc)
+
+
+def final_sweep(env):
+    """After every sequence: every generated address of every account, chain 0 then chain 1, private (if the
+    account is unlocked) and public key through the account."""
+    seq = []
+    for a, sp in enumerate(env.specs):
+        for c in ((0, 1) if sp['gen'] == 'hd' else (0,)):
+            for n in range(len(env.addresses[a][c])):
+                if not env.encrypted[a]:
+                    seq.append(('q', a, c, n, 'A'))
+                seq.append(('p', a, c, n, 'A'))
+    return seq
+
+
+def work_keys(item, res):
+    """Exhaustive enumeration of lookup orders: every sequence of `depth` operations whose first operation is
+    `first`; fresh Account objects for every sequence."""
+    _, wallet_id, alphabet, depth, first_index = item
+    h = KeyH(wallet_id)
+    try:
+        ops = key_ops(h.specs, h.addresses, alphabet)
+        firsts = ops + [('x', a) for a in range(len(h.specs))]
+        assert len(firsts) == _n_key_firsts(wallet_id, alphabet), (len(firsts), wallet_id, alphabet)
+        first = firsts[first_index]
+        n = 0
+        for seq in key_sequences(ops, len(h.specs), depth, first):
+            h.reset()
+            env = h.env()
+            res.count('executions')
+            replay = {'mode': 'keys', 'wallet': wallet_id}
+            bad = run_key_sequence(env, seq, res, replay)
+            if not bad:
+                run_key_sequence(env, seq + final_sweep(env), res, replay, start=len(seq))
+            n += 1
+            res.distinct_add('nontrivial', ('keys', wallet_id, alphabet, tuple(seq)))
+            if any(o[0] == 'q' and o[2] == 1 for o in seq) and any(o[0] == 'q' and o[2] == 0 for o in seq):
+                res.witness('private_keys_requested_on_both_chains_of_one_account_object')
+            if any(o[0] == 'x' for o in seq) and any(o[0] == 'd' for o in seq):
+                res.witness('lookup_after_lock_and_unlock')
+            if len({o[1] for o in seq if o[0] == 'q'}) > 1:
+                res.witness('private_keys_requested_from_two_accounts_of_one_wallet')
+        if first_index == 0:
+            res.sample({'key_lookup_sequences': {'wallet': wallet_id, 'alphabet': alphabet, 'depth': depth,
+                                                 'operations': len(firsts), 'example': [list(o) for o in seq]}})
+    finally:
+        h.close()
+
+
+def work_keysweep(item, res):
+    """Dedicated sweep: every generated address of every account through every API, in four chain orders, each
+    lookup asked twice, with lock/unlock at three places; fresh Account objects per run."""
+    _, wallet_id = item
+    h = KeyH(wallet_id)
+    try:
+        for order in ('0then1', '1then0', 'interleaved', 'interleaved-desc'):
+            for api in 'AML':
+                for lock in ('none', 'between-chains', 'before-everything', 'other-account-between'):
+                    h.reset()
+                    env = h.env()
+                    res.count('executions')
+                    seq = []
+                    if lock == 'before-everything':
+                        for a in range(len(h.specs)):
+                            seq += [('x', a), ('d', a)]
+                    for a, sp in enumerate(h.specs):
+                        chains = (0, 1) if sp['gen'] == 'hd' else (0,)
+                        lens = [len(h.addresses[a][c]) for c in chains]
+                        if order in ('0then1', '1then0'):
+                            cs = chains if order == '0then1' else tuple(reversed(chains))
+                            cells = []
+                            for k, c in enumerate(cs):
+                                if k == 1 and lock == 'between-chains':
+                                    cells += [('x', a), ('d', a)]
+                                if k == 1 and lock == 'other-account-between':
+                                    o = (a + 1) % len(h.specs)
+                                    cells += [('x', o), ('d', o)]
+                                cells += [(c, n) for n in range(lens[chains.index(c)])]
+                        else:
+                            cells = []
+                            for n in range(max(lens)):
+                                for c in chains:
+                                    if n < lens[chains.index(c)]:
+                                        cells.append((c, n))
+                            if order == 'interleaved-desc':
+                                cells.reverse()
+                            if lock == 'between-chains':
+                                cells.insert(len(cells) // 2, ('x', a))
+                                cells.insert(len(cells) // 2 + 1, ('d', a))
+                        for cell in cells:
+                            if cell[0] in ('x', 'd'):
+                                seq.append(cell)
+                            else:
+                                c, n = cell
+                                seq += [('q', a, c, n, api), ('p', a, c, n, api), ('q', a, c, n, api)]
+                    run_key_sequence(env, seq, res, {'mode': 'keys', 'wallet': wallet_id})
+                    res.distinct_add('nontrivial', ('keysweep', wallet_id, order, api, lock))
+        res.witness('every_generated_address_looked_up_in_four_chain_orders')
+    finally:
+        h.close()
+
+
+# ---------------------------------------------------------------------------------------------------------
 # driver
 # ---------------------------------------------------------------------------------------------------------
 
 def _dispatch(item, res):
     {'tree': work_tree, 'vectors': work_vectors, 'b58all': work_b58_all, 'b58b': work_b58_boundary,
-     'corrupt': work_b58_corrupt, 'mn': work_mnemonic, 'chain': work_chain, 'account': work_account}[item[0]](item, res)
+     'corrupt': work_b58_corrupt, 'mn': work_mnemonic, 'chain': work_chain, 'account': work_account,
+     'keys': work_keys, 'keysweep': work_keysweep}[item[0]](item, res)
+
+
+def _n_key_firsts(wallet_id, alphabet):
+    """Number of possible first operations (lookups + one lock per account) without building the harness."""
+    specs = KEY_WALLETS[wallet_id]
+    n = 0
+    for sp in specs:
+        if sp['gen'] == 'hd':
+            for g in sp['gaps']:
+                n += 3 if alphabet == 'R' else 6 * len({0, g - 1})
+        else:
+            n += 3 if alphabet == 'R' else 6
+    return n + len(specs)
 
 
 def run(ctx):
@@ -827,9 +1257,17 @@ def run(ctx):
             cfgs.append({'phrase': 'P1', 'gaps': [2, g], 'chain': 1, 'depth': chain_depth, 'how': 'seed'})
         cfgs.append({'phrase': 'P0', 'gaps': [3, 2], 'chain': 'both', 'depth': chain_depth - 1, 'how': 'seed'})
     chain_items = [('chain', c) for c in cfgs]
+    # account-level key lookup: every order of `depth` operations; item = one first operation
+    key_plan = [('K1', 'R', 3), ('K1', 'F', 2)] if ctx.quick else \
+               [('K1', 'R', 4), ('K1', 'F', 3), ('K2', 'R', 3), ('K2', 'F', 2)]
+    key_items = []
+    for wid, alphabet, kdepth in key_plan:
+        n_first = _n_key_firsts(wid, alphabet)
+        key_items += [('keys', wid, alphabet, kdepth, i) for i in range(n_first)]
+    key_items += [('keysweep', wid) for wid in (('K1', 'K2') if ctx.quick else ('K1', 'K2', 'K3'))]
     account_items = [('account', p) for p in PHRASES]
     # long items first
-    ctx.pmap(_dispatch, chain_items + items + account_items)
+    ctx.pmap(_dispatch, chain_items + key_items + items + account_items)
     ctx.meta.update(
         rule=('tree: every path of length <= D over the indices {0, 1, 2^31-1, 2^31, 2^31+1, 2^32-1} from 8 seeds (BIP32 '
               'vectors 1-3, 16/17/32/63/64 bytes) on the main-net ledger (D) and the regtest ledger (D-2); at every node all '
@@ -838,11 +1276,17 @@ def run(ctx):
               'zero runs 0..4 x 4 fills; every substitution (58+6 symbols), adjacent transposition, deletion and every single-bit flip of the '
               'underlying payload||checksum bytes of 20 strings.  Mnemonic: every integer 1..T, every (high word, low word in {0,1,2047}), +-64 around 2048^k (k<=12) '
               'and 2^132.  Chains: BFS over {ensure gap, reload, mark address j used} to depth 5 (7 thorough), gaps 1..3 on '
-              'either chain and on both chains together.  Distinct non-trivial = distinct (seed, ledger, path) nodes + payload blocks + boundary cells + '
+              'either chain and on both chains together; in every chain state every generated address is looked up (private '
+              'and public key, via account and ledger, chain order alternating).  Key lookup: every sequence of d operations '
+              'over {private/public key lookup via Account / AddressManager / Ledger for first and last index of either '
+              'chain of either account of one wallet, lock, unlock} on fresh Account objects, each followed by a sweep over '
+              'all generated addresses; plus a dedicated sweep in four chain orders x three APIs x four lock placements.  '
+              'Distinct non-trivial = distinct (seed, ledger, path) nodes + payload blocks + boundary cells + '
               'corrupted strings + mnemonic blocks + chain states.'),
         exhaustive=True,
         bounds={'tree_depth': depth, 'regtest_tree_depth': depth - 2, 'base58check_all_payloads_up_to_bytes': max_len,
-                'mnemonic_dense_range_top': top, 'chain_bfs_depth': chain_depth, 'gaps': [1, 2, 3]},
+                'mnemonic_dense_range_top': top, 'chain_bfs_depth': chain_depth, 'gaps': [1, 2, 3],
+                'key_lookup_plan(wallet, alphabet, sequence length)': [list(x) for x in key_plan]},
         bound_completed=f'tree depth {depth}; chain BFS depth {chain_depth}',
         assumptions=[
             'refs/bip32 + refs/secp256k1 are written from BIP32 / SEC1 / the Base58Check description and reproduce the '
@@ -856,12 +1300,18 @@ def run(ctx):
             'regenerates the same addresses = a wallet restored from the same seed that learns the same address usage '
             'ends with the same chains in the same order; the exact trailing-gap size is tallied only',
             'mnemonic languages other than English fail to load in this tree (wrong module path): outside the statement',
+            'key lookup: hidden caches are assumed to live in Account / AddressManager objects (rebuilt for every '
+            'sequence); Ledger and Database are rebuilt per work item; lock/unlock = Account.encrypt/decrypt (what '
+            'Wallet.lock/unlock call); a private-key lookup on a locked account may refuse but never answer wrongly',
         ],
         expected_witnesses=['private_key_with_leading_zero_byte', 'public_key_x_with_leading_zero_byte',
                             'chain_code_with_leading_zero_byte', 'hardened_child_of_private_key_with_leading_zero_byte',
                             'normal_child_of_public_key_with_leading_zero_byte', 'published_bip32_vector_reproduced',
                             'restored_wallet_regenerated_identical_chains', 'chain_extended_after_use',
-                            'account_restored_from_xpub_regenerates_same_addresses'],
+                            'account_restored_from_xpub_regenerates_same_addresses',
+                            'private_keys_requested_on_both_chains_of_one_account_object',
+                            'lookup_after_lock_and_unlock', 'private_keys_requested_from_two_accounts_of_one_wallet',
+                            'every_generated_address_looked_up_in_four_chain_orders'],
     )
 
 
@@ -928,6 +1378,14 @@ def replay(data):
             res.violation({'kind': 'address-chain', 'why': 'restored-wallet-regenerates-different-chain'}, log, data)
     elif mode == 'account':
         work_account(('account', data['phrase']), res)
+    elif mode == 'keys':
+        h = KeyH(data['wallet'])
+        try:
+            seq = [tuple(o) for o in data['seq']]
+            log = run_key_sequence(h.env(), seq, res, {'mode': 'keys', 'wallet': data['wallet']}) or \
+                f'all {len(seq)} operations answered with the BIP32 keys'
+        finally:
+            h.close()
     else:
         raise ValueError(mode)
     for v in res.violations.values():
